@@ -1430,6 +1430,10 @@ class IndexGitShaMap(GitShaMap):
             self._get_entry(key)
         except KeyError:
             self._builder.add_node(key, value)
+            # the file is named after what it holds: a write group that finds
+            # everything already present must not reuse (and overwrite) the
+            # name of the file that holds those entries
+            self._name.update(b"\0".join(key) + b"\0" + value)
             return False
         else:
             return True
